@@ -29,6 +29,9 @@ type bufferPool struct {
 }
 
 func (b *bufferPool) Get() *bytes.Buffer {
+	if buffer := verifPoolTake(b); buffer != nil {
+		return buffer
+	}
 	if buffer, ok := b.Pool.Get().(*bytes.Buffer); ok {
 		buffer.Reset()
 		return buffer
@@ -37,6 +40,9 @@ func (b *bufferPool) Get() *bytes.Buffer {
 }
 
 func (b *bufferPool) Put(buffer *bytes.Buffer) {
+	if verifPoolPut(b, buffer) {
+		return
+	}
 	if buffer.Cap() > maxRecycleBufferSize {
 		return
 	}
